@@ -512,7 +512,7 @@ impl Check for RwaCheck {
             let exp = m.apply(s);
             let is_collab = matches!(s, Step::SetIdentity { .. } | Step::SetCompliance { .. } | Step::SetTarget { .. });
             if !is_collab {
-                st.hit(if got { "tx.ok" } else { "tx.refused" });
+                st.tx(kind, got);
             }
             if got != exp {
                 let check = match (kind, got) {
